@@ -8,7 +8,7 @@ META = dict(
     stubs=_e2.STUBS,
     assumptions=_e2.ASSUMPTIONS + ['"finite time" = completeness threshold: every execution finishes or is reported deadlocked within K steps',
                                    'close(), break and garbage collection of the generator are the same GeneratorExit at the yield (PEP 342); a consumer error inside its own loop body is that path too'],
-    bounds=dict(quick='n<=2 source items, buffer 1..2, workers<=2, every stop point close_at in {never, 1..n}, every failure point, K=50/60 steps, all schedules',
+    bounds=dict(quick='n<=2 source items, buffer 1..2, workers<=2 (plus the thread pool at exactly n=3, buffer=2, workers=2), every stop point close_at in {never, 1..n}, every failure point, K=50/60 steps, all schedules',
                 thorough='single thread n<=3 (K=75) and n<=4 (K=95), buffer 1..3; pools n<=3, buffer<=2, workers<=2, K=60; thread pool n<=3, buffer<=3, workers<=3, K=64'),
     outside=['backend multiprocessing: its terminate adapter is intentionally empty because Pool.__exit__ terminates; "cancelled" is decided there by after_return',
              'interpreter shutdown', 'process-pool worker death', 'bounds above the stated ones'],
